@@ -46,6 +46,9 @@ ANCHORS = [
     ("pyanalyze/analysis_lib.py", "get_line_range_for_node"),
     ("pyanalyze/analysis_lib.py", "get_indentation"),
     ("pyanalyze/format_strings.py", "maybe_replace_with_fstring"),
+    ("pyanalyze/node_visitor.py", "NodeTransformer.generic_visit"),
+    ("pyanalyze/node_visitor.py", "ReplaceNodeTransformer.generic_visit"),
+    ("pyanalyze/name_check_visitor.py", "NameCheckVisitor._check_function_unused_vars"),
 ]
 RULE = (
     "ignores: programs = header (a line-1 diagnostic / leading comment block / docstring / nothing) + 1-3 functions and "
@@ -85,17 +88,85 @@ FIX_CODES = ("unused_variable", "unused_assignment", "use_fstrings", "missing_f"
 
 
 # ------------------------------------------------------------------ constants regenerated from the live source
+def _guard_to_lean(e):
+    """The Python subset the removal guard of `_check_function_unused_vars` is written in -> a Lean Bool term over
+    `s : AssignStmt`, `u : String` (Core/Binding.lean). Anything else: ValueError (the tie is broken, never skipped)."""
+    def targets_index(x):
+        # statement.targets[K]
+        if isinstance(x, ast.Subscript) and isinstance(x.value, ast.Attribute) and x.value.attr == "targets" \
+                and isinstance(x.value.value, ast.Name) and x.value.value.id == "statement" \
+                and isinstance(x.slice, ast.Constant) and isinstance(x.slice.value, int) and x.slice.value >= 0:
+            return "(s.targets.nth %d)" % x.slice.value
+        raise ValueError("removal guard: not statement.targets[K]: " + ast.dump(x))
+
+    if isinstance(e, ast.BoolOp):
+        op = " && " if isinstance(e.op, ast.And) else " || "
+        return "(" + op.join(_guard_to_lean(v) for v in e.values) + ")"
+    if isinstance(e, ast.UnaryOp) and isinstance(e.op, ast.Not):
+        return "!(" + _guard_to_lean(e.operand) + ")"
+    if isinstance(e, ast.Compare) and len(e.ops) == 1:
+        l, op, r = e.left, e.ops[0], e.comparators[0]
+        if isinstance(l, ast.Call) and isinstance(l.func, ast.Name) and l.func.id == "len" and len(l.args) == 1 \
+                and isinstance(l.args[0], ast.Attribute) and l.args[0].attr == "targets" \
+                and isinstance(l.args[0].value, ast.Name) and l.args[0].value.id == "statement" \
+                and isinstance(r, ast.Constant) and isinstance(r.value, int):
+            sym = {ast.Eq: "==", ast.NotEq: "!=", ast.Gt: ">", ast.GtE: ">=", ast.Lt: "<", ast.LtE: "<="}.get(type(op))
+            if sym is None:
+                raise ValueError("removal guard: comparison operator " + type(op).__name__)
+            return "(s.targets.length %s %d)" % (sym, r.value) if sym in ("==", "!=") else "decide (s.targets.length %s %d)" % (sym, r.value)
+        if isinstance(op, (ast.Is, ast.IsNot)) and isinstance(r, ast.Name) and r.id == "unused":
+            t = "(%s.isName u)" % targets_index(l)
+            return t if isinstance(op, ast.Is) else "!" + t
+        raise ValueError("removal guard: comparison outside the subset: " + ast.dump(e))
+    if isinstance(e, ast.Call) and isinstance(e.func, ast.Name) and e.func.id == "any" and len(e.args) == 1 \
+            and ast.unparse(e.args[0]) == "(isinstance(n, ast.NamedExpr) for n in ast.walk(statement))":
+        return "(!s.valueBinds.isEmpty)"
+    if isinstance(e, ast.Call) and isinstance(e.func, ast.Name) and e.func.id == "isinstance" and len(e.args) == 2:
+        kinds = e.args[1].elts if isinstance(e.args[1], ast.Tuple) else [e.args[1]]
+        names = []
+        for k in kinds:
+            if isinstance(k, ast.Attribute) and isinstance(k.value, ast.Name) and k.value.id == "ast":
+                names.append(k.attr)
+            else:
+                raise ValueError("removal guard: isinstance class outside the subset: " + ast.dump(k))
+        return "(%s.isKind [%s])" % (targets_index(e.args[0]), ", ".join('"%s"' % n for n in sorted(names)))
+    raise ValueError("removal guard: expression outside the subset: " + ast.dump(e))
+
+
+def removal_guard_expr():
+    """The test of the `if` in `_check_function_unused_vars` whose body attaches `self.remove_node(unused, statement)`."""
+    import inspect, textwrap
+    from pyanalyze.name_check_visitor import NameCheckVisitor
+    tree = ast.parse(textwrap.dedent(inspect.getsource(NameCheckVisitor._check_function_unused_vars)))
+    found = []
+    for n in ast.walk(tree):
+        if isinstance(n, ast.If):
+            for st in n.body:
+                if isinstance(st, ast.Assign) and isinstance(st.value, ast.Call) and isinstance(st.value.func, ast.Attribute) \
+                        and st.value.func.attr == "remove_node":
+                    found.append(n.test)
+    if len(found) != 1:
+        raise ValueError("_check_function_unused_vars: expected exactly one `if …: replacement = self.remove_node(…)`, found %d" % len(found))
+    return found[0]
+
+
 def translate(ctx):
     from pyanalyze import node_visitor
+    guard = removal_guard_expr()
     text = (
+        "import PyaModel.Core.Binding\n"
         "/-! Regenerated by harness/props/c16.py `translate` from the live pyanalyze; do not edit. -/\n"
         "namespace Pya.C16.Gen\n\n"
         "/-- `pyanalyze.node_visitor.ITERATION_LIMIT` -/\n"
         "def iterationLimit : Nat := %d\n\n"
         "/-- `pyanalyze.node_visitor.IGNORE_COMMENT` -/\n"
         "def ignoreComment : String := %s\n\n"
+        "/-- The condition under which `_check_function_unused_vars` attaches `remove_node(unused, statement)` to an\n"
+        "`ast.Assign` (micro-translated from the live source: `%s`). -/\n"
+        "def removalGuard (s : Pya.C16.AssignStmt) (u : String) : Bool :=\n  %s\n\n"
         "end Pya.C16.Gen\n"
-    ) % (int(node_visitor.ITERATION_LIMIT), '"' + node_visitor.IGNORE_COMMENT.replace("\\", "\\\\").replace('"', '\\"') + '"')
+    ) % (int(node_visitor.ITERATION_LIMIT), '"' + node_visitor.IGNORE_COMMENT.replace("\\", "\\\\").replace('"', '\\"') + '"',
+         ast.unparse(guard).replace("`", "'"), _guard_to_lean(guard))
     lean.write_if_changed(os.path.join(lean.LEAN, "PyaModel", "Generated", "FixConsts.lean"), text)
 
 
@@ -248,7 +319,7 @@ def parse_kv(s):
         return {"raw": s}
     out = {}
     # `last=` and `model=`/`spec=` values contain spaces: split on known keys
-    keys = ["D", "ok", "c11", "lex", "out", "spec", "rounds", "srounds", "last", "model", "wf", "range"]
+    keys = ["D", "ok", "c11", "lex", "out", "spec", "rounds", "srounds", "last", "model", "wf", "range", "guard", "sole"]
     toks = s.split(" ")
     cur = None
     for t in toks:
@@ -336,7 +407,19 @@ def stmt_facts(src, tree, st):
             if "%d" in n.left.value or not isinstance(n.right, ast.Tuple):
                 risky = True
     decorated = bool(getattr(st, "decorator_list", None))
-    return shares, sole, is_elif, risky, decorated
+    has_walrus = any(isinstance(n, ast.NamedExpr) for n in ast.walk(st))
+    tail = False
+    for n in ast.walk(st):
+        if isinstance(n, ast.BinOp) and isinstance(n.op, ast.Mod) and isinstance(n.left, ast.Constant) and isinstance(n.left.value, str):
+            t = n.left.value
+            if t.endswith("\n"):
+                import re as _re
+                last = None
+                for m in _re.finditer(r"%[#0\- +]*(\*|\d+)?(\.(\*|\d+))?[hlL]?[diouxXeEfFgGcrsba%]", t):
+                    last = m
+                if last is not None and t[last.end():] != "\n":
+                    tail = True
+    return shares, sole, is_elif, risky, decorated, has_walrus, tail
 
 
 def dump_without(tree, st, placeholder):
@@ -597,6 +680,12 @@ F_PCT = [
     ("fstr-s-tuple", ["t = (a,)", "return \"%s\" % t"]),
     ("fstr-s-tuple2", ["t = (a, b)", "try:", "    return \"%s\" % t", "except TypeError:", "    return \"E\""]),
 ]
+F_TAIL = [
+    ("fstr-tail-newline", ["return \"%s and %s!\\n\" % (a, c)"]),
+    ("fstr-tail-text", ["return \"x\\n%s tail\\n\" % a"]),
+    ("fstr-newline-only", ["return \"%s\\n\" % a"]),
+    ("fstr-inner-newline", ["return \"a\\nb %s c\" % a"]),
+]
 F_ELIF = [
     ("fstr-elif", ["if a:", "    x = 1", "elif \"%s\" % b:", "    x = 2", "else:", "    x = 3", "return x"]),
     ("fstr-elif-chain", ["x = 0", "if a == 3:", "    x = 1", "elif a == 0:", "    x = 2", "elif \"%s\" % b:", "    x = 3", "return x"]),
@@ -615,7 +704,7 @@ def build_fix_program(bodies, header=(), tail=()):
 def gen_fix_programs(ctx):
     rng = ctx.rng
     progs = []
-    allf = F_OK + F_EMPTY + F_RANGE + F_OVERRUN + F_SHARED + F_ELIF + F_PCT
+    allf = F_OK + F_EMPTY + F_RANGE + F_OVERRUN + F_SHARED + F_ELIF + F_PCT + F_TAIL
     for name, b in allf:
         progs.append(("single:" + name, build_fix_program([b])))
     # first line / last line of the file
@@ -962,24 +1051,24 @@ CTX_EXPR = [
     ("call-plain", "coll({E})"),
     ("list-starred", "[a, *[b, {E}], *(c,)]"),
     ("tuple-starred", "(a, *[{E}])"),
-    ("set-starred", "sorted({{a, *[len({E})]}})"),
+    ("set-starred", "sorted({{a, *[len([{E}])]}})"),
     ("slice-lower", "[a, b, c, {E}][1:]"),
     ("slice-upper", "[{E}, a, b, c][:2]"),
     ("slice-step", "[{E}, a, b][::2]"),
     ("slice-all", "[a, {E}][0:2:1]"),
-    ("slice-in-index", "\"abcdef\"[len({E}) % 3:]"),
+    ("slice-in-index", "\"abcdef\"[len([{E}]) % 3:]"),
     ("subscript", "[{E}][0]"),
     ("lambda-full", "(lambda p, q=1, *r, k, m=2, **kw: (p, q, r, k, m, sorted(kw), {E}))(a, k=b)"),
     ("lambda-empty", "(lambda: {E})()"),
     ("lambda-kwonly", "(lambda *, k, m={E}: (k, m))(k=a)"),
     ("lambda-posonly", "(lambda p, /, q=2: (p, q, {E}))(a)"),
     ("listcomp-multi", "[({E}, i, j) for i in range(2) if i >= 0 if a is not None for j in range(2) if j != i]"),
-    ("setcomp", "sorted({{len({E}) + i for i in range(3) if i}})"),
+    ("setcomp", "sorted({{len([{E}]) + i for i in range(3) if i}})"),
     ("dictcomp", "{{i: {E} for i in range(2)}}"),
     ("genexp", "list(({E}, i) for i in range(2))"),
-    ("fstring-spec", "f'{{len({E})!r:>5}}|{{a:{{c}}d}}|{{b!s}}|{{a}}'"),
-    ("compare-chain", "(a < c + 100 <= len({E}) + 100 != -1)"),
-    ("compare-in", "(len({E}) in (1, 2) or a not in [c] or a is not None)"),
+    ("fstring-spec", "f'{{len([{E}])!r:>5}}|{{a:{{c}}d}}|{{b!s}}|{{a}}'"),
+    ("compare-chain", "(a < c + 100 <= len([{E}]) + 100 != -1)"),
+    ("compare-in", "(len([{E}]) in (1, 2) or a not in [c] or a is not None)"),
     ("boolop-and", "(a and b and {E})"),
     ("boolop-or", "(0 or {E} or a)"),
     ("ifexp-body", "({E} if a else b)"),
@@ -1222,6 +1311,222 @@ def context_coverage(ctx, programs):
         "fields_with_None_entries": sorted("%s.%s" % k for k, v in seen.items() if "with-None-entry" in v)}
 
 
+# ------------------------------------------------------------------ bindings: what a statement binds, who reads it (CPython ast only)
+_SCOPES = (ast.FunctionDef, ast.AsyncFunctionDef, ast.Lambda, ast.ClassDef)
+_COMPS = (ast.ListComp, ast.SetComp, ast.DictComp, ast.GeneratorExp)
+
+
+def bound_names(st):
+    """Names a statement binds in the scope it stands in (targets, `:=` anywhere — also inside comprehensions —, for /
+    with / except / import / def / class / match captures); nested function and class bodies are other scopes."""
+    out = []
+
+    def go(n, in_comp):
+        if isinstance(n, (ast.FunctionDef, ast.AsyncFunctionDef, ast.ClassDef)) and n is not st:
+            out.append(n.name)
+            for d in n.decorator_list:
+                go(d, in_comp)
+            return
+        if isinstance(n, ast.Lambda):
+            return
+        if isinstance(n, ast.Name) and isinstance(n.ctx, ast.Store) and not in_comp:
+            out.append(n.id)
+        if isinstance(n, ast.NamedExpr):
+            out.append(n.target.id)
+            go(n.value, in_comp)
+            return
+        if isinstance(n, ast.ExceptHandler) and n.name:
+            out.append(n.name)
+        if isinstance(n, ast.alias):
+            out.append((n.asname or n.name).split(".")[0])
+        if isinstance(n, (ast.MatchAs, ast.MatchStar)) and n.name:
+            out.append(n.name)
+        if isinstance(n, ast.MatchMapping) and n.rest:
+            out.append(n.rest)
+        if isinstance(n, (ast.FunctionDef, ast.AsyncFunctionDef, ast.ClassDef)):
+            out.append(n.name)
+            return
+        for ch in ast.iter_child_nodes(n):
+            go(ch, in_comp or isinstance(n, _COMPS))
+
+    go(st, False)
+    return out
+
+
+def enclosing_function(tree, node):
+    best = None
+    for f in ast.walk(tree):
+        if isinstance(f, (ast.FunctionDef, ast.AsyncFunctionDef)) and any(n is node for n in ast.walk(f)):
+            if best is None or any(n is f for n in ast.walk(best)):
+                best = f
+    return best or tree
+
+
+def reads_outside(scope, st, names):
+    """Reads (Load) of `names` inside `scope` but outside the statement `st`: [(name, line)]."""
+    inside = {id(n) for n in ast.walk(st)}
+    return sorted({(n.id, n.lineno) for n in ast.walk(scope)
+                   if isinstance(n, ast.Name) and isinstance(n.ctx, ast.Load) and n.id in names and id(n) not in inside})
+
+
+def enc_target(t):
+    if isinstance(t, ast.Name):
+        return ["n", t.id]
+    if isinstance(t, ast.Tuple):
+        return ["t", str(len(t.elts))] + [x for e in t.elts for x in enc_target(e)]
+    if isinstance(t, ast.List):
+        return ["l", str(len(t.elts))] + [x for e in t.elts for x in enc_target(e)]
+    if isinstance(t, ast.Starred):
+        return ["s"] + enc_target(t.value)
+    return ["o", type(t).__name__]
+
+
+def guard_cases(tree, fails, changes):
+    """For every unused_variable / unused_assignment failure whose name is bound by an `Assign`: the driver line of the
+    model's guard and whether the implementation attached the delete-the-statement replacement."""
+    out = []
+    pm = None
+    for (code, line, col, _msg), ch in zip(fails, changes):
+        if code not in ("unused_variable", "unused_assignment"):
+            continue
+        name = next((n for n in ast.walk(tree) if isinstance(n, ast.Name) and isinstance(n.ctx, ast.Store)
+                     and n.lineno == line and n.col_offset == col), None)
+        if name is None:
+            continue
+        if pm is None:
+            pm = parent_map(tree)
+        st = name
+        in_comp = False
+        while st in pm and not isinstance(st, ast.stmt):
+            st = pm[st][0]
+            in_comp = in_comp or isinstance(st, _COMPS)
+        if not isinstance(st, ast.Assign) or in_comp:
+            continue
+        vb = [n.target.id for n in ast.walk(st) if isinstance(n, ast.NamedExpr)]
+        toks = [str(len(st.targets))] + [x for t in st.targets for x in enc_target(t)]
+        out.append(("G|%s|%s|%s" % (" ".join(toks), ",".join(vb) or "-", name.id), ch[1] == [], ast.unparse(st)))
+    return out
+
+
+def binding_site_catalogue():
+    """Every place the grammar lets a name be bound: fields of type `expr` called target / targets / optional_vars, and
+    fields of type `identifier` (except the three that only *mention* a name) — read off ast's docstrings."""
+    import re
+    cat = set()
+    todo, seen = [ast.AST], set()
+    while todo:
+        c = todo.pop()
+        for sub in c.__subclasses__():
+            if sub in seen:
+                continue
+            seen.add(sub)
+            todo.append(sub)
+            m = re.match(r"\s*%s\((.*)\)\s*$" % re.escape(sub.__name__), (sub.__doc__ or "").strip().replace("\n", " "))
+            if not m:
+                continue
+            for part in m.group(1).split(","):
+                mm = re.match(r"\s*(\w+)([*?]?)\s+(\w+)\s*$", part)
+                if not mm:
+                    continue
+                typ, _mark, field = mm.groups()
+                if typ == "expr" and field in ("target", "targets", "optional_vars"):
+                    cat.add((sub.__name__, field))
+                if typ == "identifier" and (sub.__name__, field) not in (("Name", "id"), ("Attribute", "attr"), ("keyword", "arg"),
+                                                                         ("ImportFrom", "module")):
+                    cat.add((sub.__name__, field))
+    return cat
+
+
+def binding_coverage(ctx, programs):
+    cat = binding_site_catalogue()
+    seen = set()
+    shapes = set()
+    for lines in programs:
+        tree = try_parse("\n".join(lines) + "\n")
+        if tree is None:
+            continue
+        for n in ast.walk(tree):
+            for f, v in ast.iter_fields(n):
+                if (type(n).__name__, f) in cat and v not in (None, []):
+                    seen.add((type(n).__name__, f))
+            if isinstance(n, ast.Assign):
+                kinds = [type(t).__name__ for t in n.targets]
+                shapes.add("Assign[%s]" % ",".join(kinds))
+    ctx.extra["binding_site_coverage"] = {
+        "binding_sites_in_grammar": len(cat), "exercised": len(seen & cat),
+        "not_exercised": sorted("%s.%s" % k for k in cat - seen), "assign_target_shapes": sorted(shapes)}
+
+
+# every binding form with an unused name `u` (body of `def t0(a, b, c):`); `v`, `w` are used
+BIND_FORMS = [
+    ("assign-single", ["u = a", "return b"]),
+    ("chain-first", ["u = v = a", "return v"]),
+    ("chain-middle", ["v = u = w = a", "return (v, w)"]),
+    ("chain-last", ["v = u = a", "return v"]),
+    ("chain-first-tuple", ["u = v, w = (a, b)", "return (v, w)"]),
+    ("chain-tuple-first", ["v, w = u = (a, b)", "return (v, w)"]),
+    ("chain-all-unused", ["u = u2 = a", "return b"]),
+    ("tuple-first", ["u, v = a, b", "return v"]),
+    ("tuple-last", ["v, u = a, b", "return v"]),
+    ("tuple-all-unused", ["u, u2 = a, b", "return c"]),
+    ("tuple-paren", ["(u, v) = (a, b)", "return v"]),
+    ("list-target", ["[u, v] = [a, b]", "return v"]),
+    ("starred-unused", ["v, *u = [a, b, c]", "return v"]),
+    ("starred-used", ["u, *v = [a, b, c]", "return v"]),
+    ("nested-target", ["(u, (v, w)) = (a, (b, c))", "return (v, w)"]),
+    ("nested-inner", ["(v, (u, w)) = (a, (b, c))", "return (v, w)"]),
+    ("attr-chain", ["bx = Box()", "bx.v = u = a", "return bx.v"]),
+    ("attr-chain-first", ["bx = Box()", "u = bx.v = a", "return bx.v"]),
+    ("subscript-chain", ["d = {}", "d[\"k\"] = u = a", "return d"]),
+    ("subscript-chain-first", ["d = {}", "u = d[\"k\"] = a", "return d"]),
+    ("annassign", ["u: int = a", "return b"]),
+    ("annassign-novalue", ["u: int", "return b"]),
+    ("augassign", ["u = 0", "u += a", "return b"]),
+    ("reassign", ["u = a", "u = b", "return c"]),
+    ("walrus-in-value", ["v = (u := a) + 1", "return v"]),
+    ("walrus-in-value-list", ["v = [u := a, b]", "return v"]),
+    ("walrus-in-subscript-target", ["d = {}", "d[(u := a)] = b", "return d"]),
+    ("walrus-value-unused-target", ["u = (v := a) + 1", "return v"]),
+    ("walrus-cond", ["if (u := a) is not None:", "    return b", "return c"]),
+    ("walrus-while", ["while (u := a) and False:", "    pass", "return b"]),
+    ("walrus-in-comp", ["return [(u := i) for i in range(2)]"]),
+    ("walrus-expr-stmt", ["(u := a)", "return b"]),
+    ("for-target", ["for u in range(2):", "    pass", "return a"]),
+    ("for-tuple-target", ["r = []", "for u, v in [(a, b)]:", "    r.append(v)", "return r"]),
+    ("with-as", ["with Box(a) as u:", "    pass", "return b"]),
+    ("with-as-two", ["with Box(a) as u, Box(b) as v:", "    r = v.v", "return r"]),
+    ("except-as", ["try:", "    return int(\"x\")", "except ValueError as u:", "    return b"]),
+    ("import-as", ["import os.path as u", "return a"]),
+    ("import-plain", ["import json", "return a"]),
+    ("from-import-as", ["from os import sep as u, getcwd as v", "return v is not None"]),
+    ("def-name", ["def u():", "    return 1", "return a"]),
+    ("class-name", ["class u:", "    pass", "return a"]),
+    ("match-capture", ["match Box([a, b]).v:", "    case [u, *rest]:", "        return rest", "    case {\"k\": v, **kw}:",
+                       "        return (v, kw)", "    case Box(v=w) | w:", "        return w", "return c"]),
+    ("match-as", ["match Box(a).v:", "    case (1 | 2) as u:", "        return b", "    case v:", "        return v"]),
+    ("comp-var", ["return [1 for u in range(2)]"]),
+    ("comp-tuple-var", ["return {k: 1 for k, u in [(a, b)]}"]),
+    ("global-decl", ["global G0", "G0 = a", "return b"]),
+    ("nonlocal-decl", ["z = 0", "def inner():", "    nonlocal z", "    z = a", "inner()", "return z"]),
+    ("del-target", ["u = a", "del u", "return b"]),
+    ("unused-in-if", ["if a:", "    u = 1", "    v = 2", "else:", "    v = 3", "return v"]),
+    ("multi-line-chain", ["u = v = (", "    a,", "    b,", ")", "return v"]),
+]
+
+
+def bind_programs(ctx):
+    rng = ctx.rng
+    progs = []
+    for name, body in BIND_FORMS:
+        progs.append(("bind:" + name, build_ctx_program(body), "fix"))
+    # two forms in two functions (fixpoint interplay), seeded
+    for _ in range(ctx.n(4, 150)):
+        (n1, b1), (n2, b2) = rng.choice(BIND_FORMS), rng.choice(BIND_FORMS)
+        lines = build_ctx_program(b1) + ["def t1(a, b, c):"] + ["    " + l for l in b2]
+        progs.append(("bind2:%s:%s" % (n1, n2), lines, "fix"))
+    return progs
+
+
 # ------------------------------------------------------------------ fixes stream
 def normalise_new_node(new_node, target):
     """The replacement the fix producer built, as CPython itself reads it back (ast.unparse -> ast.parse), with the
@@ -1263,6 +1568,10 @@ def fix_case(ctx, case, lines, with_model, cap, profile="fix"):
         ctx.count(1, fixes=1)
         cl = file_lines(cur)
         first = changes[0] if changes else None
+        if k == 0:
+            t0_ = try_parse(cur)
+            for gl, proposed, text in (guard_cases(t0_, fails, changes) if t0_ is not None else []):
+                pending.append(("G", case, k, gl, proposed, text))
         if first is not None:
             pending.append(("A", case, k, "A|%s|%s|%s" % (enc_lines(cl), ",".join(map(str, first[0])) or "-",
                                                          enc_adds(None if first[1] is None else strip_nl(first[1]))),
@@ -1277,7 +1586,7 @@ def fix_case(ctx, case, lines, with_model, cap, profile="fix"):
         old_tree = ast.parse(cur)
         new_tree = try_parse(new)
         st = find_stmt(old_tree, info) if info else None
-        facts = stmt_facts(cur, old_tree, st) if st is not None else (False, False, False, False, False)
+        facts = stmt_facts(cur, old_tree, st) if st is not None else (False,) * 7
         if info is None or st is None:
             ctx.tag("fix_without_statement_record")
         if new_tree is None:
@@ -1306,6 +1615,16 @@ def fix_case(ctx, case, lines, with_model, cap, profile="fix"):
                     if ast.dump(new_tree) != want:
                         problems.append(("exact", "round %d: the file after the fix for %s is not the original syntax tree with exactly the node at line %d col %d replaced" % (
                             k, code, info["target"][1], info["target"][2])))
+            if info["kind"] == "remove":
+                # bindings: the statement may go only if it binds nothing but the unused name that nobody reads
+                un = next((n for n in ast.walk(st) if isinstance(n, ast.Name) and n.lineno == fails[0][1] and n.col_offset == fails[0][2]), None)
+                if un is not None:
+                    ctx.count(1, removal_binding_oracle=1)
+                    others = set(bound_names(st)) - {un.id}
+                    rd = reads_outside(enclosing_function(old_tree, st), st, others)
+                    if rd:
+                        problems.append(("binding", "round %d: the statement removed for the unused %s (line %d) also binds %s, read on line %d" % (
+                            k, un.id, st.lineno, rd[0][0], rd[0][1])))
             # behaviour
             b0, b1 = behaviour(cur), behaviour(new)
             if code == "missing_f":
@@ -1333,10 +1652,17 @@ def fix_case(ctx, case, lines, with_model, cap, profile="fix"):
                 c_new = sum(1 for f in nf if (f[0], f[3]) == key)
                 if c_new > c_old - 1:
                     problems.append(("still", "round %d: the diagnostic that proposed the fix (%s: %s) is still reported" % (k, key[0], key[1])))
+                # no new diagnostics (a removal may make another binding unused: that cascade is expected)
+                oldset = collections.Counter((f[0], f[3]) for f in fails)
+                fresh = [f for f in nf if oldset[(f[0], f[3])] == 0 and f[0] not in ("unused_variable", "unused_assignment")]
+                if fresh:
+                    problems.append(("newdiag", "round %d: after the fix for %s a diagnostic appears that was not there before: %s on line %s (%s)" % (
+                        k, code, fresh[0][0], fresh[0][1], fresh[0][3][:60])))
         if info is not None:
-            pending.append(("X", case, k, "X|%s|%d|%d|%s|%d%d%d%d%d" % (
+            pending.append(("X", case, k, "X|%s|%d|%d|%s|%d%d%d%d%d%d%d" % (
                 enc_lines(cl), info["lineno"], info["end_lineno"], enc_adds(None if first[1] is None else strip_nl(first[1])),
-                int(facts[0]), int(facts[1]), int(facts[2]), int(facts[3] and code == "use_fstrings"), int(facts[4])), problems, first[0]))
+                int(facts[0]), int(facts[1]), int(facts[2]), int(facts[3] and code == "use_fstrings"), int(facts[4]),
+                int(facts[5]), int(facts[6] and code == "use_fstrings")), problems, first[0]))
             pending.append(("R", case, k, "R|%s|%d|%d|%d" % (enc_lines(cl), info["lineno"], info["end_lineno"], info["end_lineno"]),
                             first[0], None))
         elif problems:
@@ -1350,9 +1676,11 @@ def fix_case(ctx, case, lines, with_model, cap, profile="fix"):
 FIX_KIND_CLASSES = {
     "parse": ["emptyBlock", "stmtRangeOverrun", "sharedLine"],
     "locality": ["stmtRangeOverrun", "sharedLine", "elifHeader", "emptyBlock", "decoratedStmt"],
-    "behaviour": ["stmtRangeOverrun", "sharedLine", "elifHeader", "decoratedStmt", "fstringConversion"],
+    "behaviour": ["stmtRangeOverrun", "sharedLine", "elifHeader", "decoratedStmt", "walrusInRemoved", "fstringTail", "fstringConversion"],
     "still": ["decoratedStmt"],
     "exact": ["stmtRangeOverrun", "sharedLine", "elifHeader", "decoratedStmt"],
+    "binding": ["walrusInRemoved"],
+    "newdiag": ["walrusInRemoved", "sharedLine", "elifHeader", "stmtRangeOverrun", "decoratedStmt"],
 }
 
 
@@ -1375,6 +1703,14 @@ def flush_fixes(ctx, pending, with_model):
                 ctx.disagree("fixes", dict(case, round=k), "file after the round: " + got[:200], "applyChanges: " + str(mo.get("model"))[:200])
             if mo.get("wf") == "1" and mo.get("spec") != mo.get("model"):
                 ctx.disagree("model-vs-spec", dict(case, round=k), "applyChanges " + str(mo.get("model"))[:120], "specApply " + str(mo.get("spec"))[:120])
+        if op == "G" and mo is not None:
+            ctx.corr("guard")
+            ctx.count(1, guard=1)
+            if mo.get("guard") != ("1" if p[4] else "0"):
+                ctx.disagree("guard", dict(case, statement=p[5]), "removal fix %s" % ("attached" if p[4] else "not attached"),
+                             "Gen.removalGuard = " + str(mo.get("guard")))
+            if mo.get("guard") == "1" and mo.get("sole") == "0":
+                ctx.tag("guard_admits_other_bindings_" + str(mo.get("D")))
         if op == "R" and mo is not None:
             ctx.corr("range")
             got = ",".join(map(str, p[4]))
@@ -1399,7 +1735,7 @@ def flush_fixes(ctx, pending, with_model):
                 allowed = FIX_KIND_CLASSES[kind]
                 if kind == "behaviour" and any(k2 in ("exact", "locality", "parse") for k2, _w in p[4]):
                     # fstringConversion explains a changed result only when the tree is exactly the intended one
-                    allowed = [c for c in allowed if c != "fstringConversion"]
+                    allowed = [c for c in allowed if c not in ("fstringConversion", "fstringTail")]
                 cls = next((c for c in allowed if c in cls_list), None)
                 ctx.candidate(dict(case, round=k), what, cls=cls, conforms=conform.get(key, True), stream="fixes")
         elif op == "X" and mo is not None:
@@ -1635,6 +1971,17 @@ def _run(ctx, with_model):
             pending = []
     flush_fixes(ctx, pending, with_model)
     context_coverage(ctx, [l for _t, l, _p in cprogs])
+    # ---- the unused name in every binding form (removal fixes)
+    bprogs = bind_programs(ctx)
+    pending = []
+    for tag, lines, prof in bprogs:
+        ctx.tag("gen_" + tag.split(":")[0])
+        pending += fix_case(ctx, {"program": lines, "mode": "fixes", "profile": prof}, lines, with_model, ctx.n(3, 6), profile=prof)
+        if len(pending) > 200:
+            flush_fixes(ctx, pending, with_model)
+            pending = []
+    flush_fixes(ctx, pending, with_model)
+    binding_coverage(ctx, [l for _t, l, _p in bprogs] + [l for _t, l, _p in cprogs])
     srcs = ["\n".join(l) + "\n" for _t, l, _p in cprogs]
     extra = ["\n".join(l) + "\n" for _t, l in fprogs] + ["\n".join(l) + "\n" for _t, l, _n in progs]
     ctx.rng.shuffle(extra)
